@@ -131,10 +131,13 @@ def cleanup_run_dir():
 # (vx/weak_baseline.json, tools/mk_weak_baseline.py); a function of the working tree that contains MORE of these calls than its
 # baseline is "tainted": its failing obligations are demoted to auxiliary (verdict UNDECIDED, never VIOLATION).
 WEAK_RE = re.compile(r"\.\s*(rev|find|any|all|map|filter|position|rposition|fold|count|sum|product|collect|enumerate|zip|for_each|max_by|max_by_key|min_by|"
-                     r"min_by_key|filter_map|flat_map|take_while|skip_while|map_while|partition|chain|nth|find_map|cloned|copied|flatten|peekable|"
+                     r"min_by_key|filter_map|flat_map|take_while|skip_while|map_while|partition|chain|nth|find_map|flatten|peekable|"
                      r"step_by|windows|chunks|retain|sort_by|sort_by_key|sort_unstable_by|sort_unstable_by_key|dedup|dedup_by_key|drain|binary_search_by|binary_search_by_key|"
-                     r"partition_point|iter|iter_mut|into_iter|unwrap_or_else|map_or|map_or_else|and_then|or_else|is_some_and|is_ok_and|ok_or_else|"
-                     r"then|then_some|take|skip|last|min|max|rfind|rev_iter|try_fold|reduce|scan|inspect|fuse|cycle|split|splitn|chars|bytes|lines)\s*(?:::\s*<[^>]*>\s*)?\(")
+                     r"partition_point|iter|iter_mut|into_iter|unwrap_or_else|map_or|map_or_else|and_then|or_else|is_some_and|is_ok_and|"
+                     r"skip|rfind|try_fold|reduce|scan|inspect|fuse|cycle)\s*(?:::\s*<[^>]*>\s*)?\(")
+# (methods of Option / slices that std documents completely and that have a specification here - copied, cloned, take, last, min, max,
+# unwrap_or, .. - are not in the list: Verus rejects a std function without any specification, so what is accepted AND not listed
+# here has a usable one)
 
 
 def weak_profile(b):
